@@ -164,3 +164,46 @@ func typesChain(args []string) *Result {
 }
 
 func init() { subcmds["types-chain"] = typesChain }
+
+// macro-chain <tlc-output of MC_C01macro>: the macro diamonds ("D" lines): @m0 holds a response, every @m(i) pastes
+// @m(i-1) twice, a method pastes @m(n).  The text is linear in n, the expanded tree has 2^n responses (the model
+// states it); the per-case limit of C01 (2 s + 50 us/byte) applies to the real build.
+func macroChain(args []string) *Result {
+	res := &Result{}
+	var tl []string
+	err := forEachEmitted(args[0], "D", func(js string) error {
+		var cs struct {
+			Depth int `json:"depth"`
+		}
+		if err := json.Unmarshal([]byte(js), &cs); err != nil {
+			return err
+		}
+		var sb strings.Builder
+		sb.WriteString("JSIGHT 0.3\nMACRO @m0\n(\n  200 any\n)\n")
+		for i := 1; i <= cs.Depth; i++ {
+			fmt.Fprintf(&sb, "MACRO @m%d\n(\n  PASTE @m%d\n  PASTE @m%d\n)\n", i, i-1, i-1)
+		}
+		fmt.Fprintf(&sb, "GET /z\n  PASTE @m%d\n", cs.Depth)
+		text := sb.String()
+		res.Cases++
+		res.Nontrivial++
+		out, pm, dur := totalBuild("root.jst", []byte(text))
+		tl = append(tl, fmt.Sprintf("depth %d: %d bytes %.3f s", cs.Depth, len(text), dur.Seconds()))
+		res.count(out)
+		if out == "panic" {
+			res.mismatch("c01:panic:"+panicSite(pm), "building a macro diamond panics: "+pm, map[string]any{"kind": "c01-text", "text": text})
+		}
+		if limit := 2.0 + 50e-6*float64(len(text)); dur.Seconds() > limit {
+			res.mismatch("c01:slow:macro-diamond", fmt.Sprintf("a macro diamond of depth %d (%d bytes, %d macros) takes %.1f s to build (limit %.2f s); the time doubles with every level",
+				cs.Depth, len(text), cs.Depth+1, dur.Seconds(), limit), map[string]any{"kind": "c01-text", "text": text, "depth": cs.Depth})
+		}
+		return nil
+	})
+	if err != nil {
+		res.Error = err.Error()
+	}
+	res.Extra = map[string]any{"timings": tl}
+	return res
+}
+
+func init() { subcmds["macro-chain"] = macroChain }
